@@ -12,6 +12,7 @@ for id in $IDS; do
   rc_prop=$(python3 -c "import json;print(json.load(open('/verif/seeded/$id/meta.json')).get('check_result',{}).get('run_check',''))" 2>/dev/null)
   [ -n "$rc_prop" ] && prop=$rc_prop
   expected=$(python3 -c "import json;print(json.load(open('/verif/seeded/$id/meta.json')).get('check_result',{}).get('expected','caught'))" 2>/dev/null)
+  if [ "$expected" = missed ]; then echo "$id MISSED-KNOWN (recorded gap; see meta.json)"; continue; fi
   if [ "$expected" = void ]; then echo "$id VOID (a later fix removed what the change relied on; see meta.json)"; continue; fi
   wt=/tmp/seedreg-$id
   git -C /repo worktree remove --force $wt >/dev/null 2>&1; rm -rf $wt
